@@ -180,11 +180,11 @@ func Raw64Builder(env *Zlisp, name string, args []Sexp) (Sexp, error) {
 				case *SexpStr:
 					joined += extractRawHelper(tt.S)
 				default:
-					vv("don't know what to do with rhs of symbol %T/val=%v", rhs, rhs)
+					return SexpNull, fmt.Errorf("%s: cannot decode the value of '%s', a %T", name, t.name, rhs)
 				}
 
 			default:
-				vv("don't know what to do with %T/val=%v", x, x)
+				return SexpNull, fmt.Errorf("%s: cannot decode a %T", name, x)
 			}
 		}
 	}
